@@ -126,3 +126,49 @@ def min_distance (m, x):
                 best = min (best, np.linalg.norm (x - (a2 + t * d)))
     return best / lmax
 # end def min_distance
+
+def e_parts (m, x, n_sub = 8):
+    """ (E_A, Psi) at x: the vector-potential part -j omega A of E and the scalar Psi = -Phi whose gradient is
+        the charge part of E, so that E = E_A + grad Psi (same sums as fields ()) """
+    kw  = m.w
+    srm = m.srm
+    x   = np.asarray (x, float)
+    om4 = kw * ETA / (4 * np.pi)
+    ie4 = ETA / (4 * np.pi * kw)
+    EA  = np.zeros (3, complex)
+    Psi = 0j
+    imgs = [1] if m.media is None else [1, -1]
+    for p, I in zip (m.pulses, m.current):
+        for k in imgs:
+            if k < 0 and p.ground.any ():
+                continue
+            mir = np.array ([1, 1, k], float)
+            P  = np.asarray (p.point, float) * mir
+            E0 = np.asarray (p.ends [0], float) * mir
+            E1 = np.asarray (p.ends [1], float) * mir
+            r0, r1 = p.geo [0].r, p.geo [1].r
+            for (s0, s1, r) in (((P + E0) / 2, P, r0), (P, (P + E1) / 2, r1)):
+                tau = (s1 - s0) / np.linalg.norm (s1 - s0)
+                Ki, gK = seg_int_vec (x, s0, s1, r, kw, r > srm, n_sub)
+                EA += k * (-1j * om4) * I * tau * Ki
+            L0 = np.linalg.norm (P - E0)
+            L1 = np.linalg.norm (E1 - P)
+            for (s0, s1, r, dens) in ((P, E1, r1, -I / L1), (E0, P, r0, I / L0)):
+                Ki, gK = seg_int_vec (x, s0, s1, r, kw, r > srm, 2 * n_sub)
+                Psi += k * ie4 / 1j * dens * Ki
+    return EA, Psi
+# end def e_parts
+
+def e_virtual_dipole (m, x, half):
+    """ E as MININEC forms it: the voltage across a virtual dipole from x - half to x + half along each axis
+        (vector potential at the centre, scalar potential at the two ends) over its length. Used only to
+        *classify* a deviation of the reported E from the exact field. """
+    x  = np.asarray (x, float)
+    EA, _ = e_parts (m, x)
+    E  = np.array (EA)
+    for i in range (3):
+        e = np.zeros (3)
+        e [i] = half
+        E [i] += (e_parts (m, x + e) [1] - e_parts (m, x - e) [1]) / (2 * half)
+    return E
+# end def e_virtual_dipole
